@@ -182,6 +182,17 @@ def inject(crate):
         s = s[: bo + 1] + "\n" + h["insert"] + "\n" + s[bo + 1 :]
         open(p, "w").write(s)
         added.append("cfg(kani) hook at top of %s in %s" % (h["fn"], h["file"]))
+    for h in spec.get("stmt_hooks", []):
+        p = os.path.join(crate, h["file"])
+        s = open(p).read()
+        n = s.count(h["before"])
+        if n != 1:
+            raise Infra("lost anchor: statement %r occurs %d times in %s" % (h["before"], n, h["file"]))
+        i = s.index(h["before"])
+        ls = s.rfind("\n", 0, i) + 1
+        s = s[:ls] + h["insert"] + "\n" + s[ls:]
+        open(p, "w").write(s)
+        added.append("cfg(kani) hook before `%s` in %s" % (h["before"][:50], h["file"]))
     for a in spec.get("attrs", []):
         p = os.path.join(crate, a["file"])
         s = open(p).read()
@@ -239,24 +250,26 @@ def classify_harness(res):
     (verdict, failed_checks, cover_stats, note)."""
     failed = []
     undecided = []
-    cov_sat = cov_unsat = 0
+    covers = {}
     for c in res.get("checks", []):
         st = c.get("status")
         cat = c.get("category", "")
         desc = c.get("description", "")
         if cat == "cover":
-            if st == "Satisfied":
-                cov_sat += 1
-            else:
-                cov_unsat += 1
+            # CBMC may duplicate a cover statement (code duplication after branches): a cover is
+            # satisfied if any of its instances is.
+            key = (desc, c.get("location", {}).get("line"))
+            covers[key] = covers.get(key, False) or st == "Satisfied"
             continue
         if st == "Failure":
             if cat in UNDECIDED_CATEGORIES or "unwinding assertion" in desc or "is not currently supported by Kani" in desc or "unsupported" in cat:
                 undecided.append(c)
             else:
                 failed.append(c)
-        elif st in ("Undetermined", "SolverError"):
+        elif st in ("SolverError",):
             undecided.append(c)
+    cov_sat = len([k for k, v in covers.items() if v])
+    cov_unsat = len([k for k, v in covers.items() if not v])
     status = res.get("status")
     if failed and not undecided:
         return "failed", failed, (cov_sat, cov_unsat), ""
